@@ -1,15 +1,17 @@
 #!/bin/sh
 # Build everything the checks need from files on disk only (offline): the harness workspace
 # (against /repo's working tree) and the whole Coq development.  The checks rebuild
-# incrementally from /repo on every run; this only warms the caches.
-set -e
+# incrementally from /repo on every run; this only warms the caches, so failures of single
+# crates/files are tolerated here (the check of the property concerned will report them).
 cd "$(dirname "$0")"
 export CARGO_NET_OFFLINE=true CARGO_TARGET_DIR="$PWD/.cache/target" RUST_BACKTRACE=0
 mkdir -p .cache evidence
 ./tools/gen_workspace.sh
-(cd harness && cargo build --offline --workspace 2>&1 | tail -3)
-./.cache/target/debug/rs2v /repo coq/Gen
+(cd harness && cargo build --offline --workspace --keep-going 2>&1 | tail -3) || \
+  (cd harness && for c in */; do c=${c%/}; [ -f "$c/Cargo.toml" ] && cargo build --offline -p "$c" 2>&1 | tail -1; done)
+./.cache/target/debug/rs2v /repo coq/Gen || true
 cd coq
 (cat _CoqProject.head; ls Lib/*.v Gen/*.v Model/*.v Proofs/*.v Props/*.v) > _CoqProject
 coq_makefile -f _CoqProject -o Makefile > /dev/null
-timeout 3000 make -j16 2>&1 | tail -5
+timeout 3000 make -k -j16 2>&1 | tail -5
+exit 0
